@@ -119,6 +119,21 @@ CHECKS['C12'] = dict(
          'symbolic in the model. Bounded sequences; formal.* with smaller bounds (one state per sequence).',
     design='8 (C12), 12', engine='math-agg')
 
+CHECKS['C14'] = dict(
+    text='Store.tla transcribes MemoryStore (parallel values/state/keys arrays indexed by key[0], the growth loop, markers '
+         'NOTSET/SET/CLEARED, default values, typed arrays per data_type with the conversion back to bool, the mapper dict '
+         'per slot with next_index/free_slots) next to an abstract dictionary model (index -> absent | fresh | value; map '
+         'key -> group index; allocator never hands out an index in use) updated in lock-step. TLC checks for every history '
+         'of <=6 (8) calls over sparse, descending and repeated indices, every data type with and without default: every '
+         'returned value equals the dictionary model (RetEqualsModel), Refines, ReAddFresh, AllocatorFresh, Isolation. TLC '
+         'behaviours are replayed on a real MemoryStore and through StoreManager, random call sequences use indices up to '
+         '2000, a recording store factory logs the calls real pipelines (roll, group_by, tee_map, split) make, and '
+         'StoreTrace.tla validates every recorded call sequence on return values only.',
+    note='Calls outside the documented contract (set/get/del_key on a slot that is not live) are not judged; del_map is not '
+         'among the operations the property names: its result and the maps of that index are not judged until the index is '
+         'added again. Values are abstracted to (type, equality class).',
+    design='8 (C14)', engine='store')
+
 MUX_NOTE = ('Bounded / sampled: TLC explores the specification side exhaustively within small constants; '
             'the real code is driven on harness-enumerated small inputs and on random cases of the '
             'property\'s operator family, every recorded execution is judged by TLC. Trusts: the taps '
@@ -188,6 +203,8 @@ ENGINES = [
          serves_properties=['C19'], kind_free_text='TLA+ staged pipeline model + TLC + trace validation'),
     dict(name='math-agg', path='spec/MathAgg.tla spec/MathAggTrace.tla harness/checks/c12.py',
          serves_properties=['C12'], kind_free_text='TLA+ accumulator model in exact rationals + TLC + trace validation + numeric probe'),
+    dict(name='store', path='spec/Store.tla spec/StoreTrace.tla harness/checks/c14.py harness/c14_recstore.py',
+         serves_properties=['C14'], kind_free_text='TLA+ refinement (arrays+markers vs dictionary) + TLC + trace validation'),
     dict(name='parquet', path='spec/ParquetDump.tla spec/ParquetDumpTrace.tla harness/checks/c20.py',
          serves_properties=['C20'], kind_free_text='TLA+ implementation model (heap of python lists) + TLC + trace validation'),
     dict(name='mux-contracts', path='spec/FnLib.tla spec/ListSem.tla spec/ListSemCheck.tla spec/Contracts.tla '
